@@ -601,13 +601,44 @@ func SeamAll(com *ssa.CallCommon) []*ssa.Function {
 	return nil
 }
 
-// Release drops what Load registered globally for this program.
+// Release drops what Load registered globally for this program, and the package-level memos keyed by parts of a
+// program (they would keep every program analysed by this process alive).
 func (c *Ctx) Release() {
 	for _, k := range c.seamKeys {
 		seamsAll.Delete(k)
 		seams.Delete(k)
 	}
 	c.seamKeys = nil
+	releaseMu.Lock()
+	hooks := append([]func(){}, releaseHooks...)
+	releaseMu.Unlock()
+	for _, h := range hooks {
+		h()
+	}
+}
+
+var (
+	releaseMu    sync.Mutex
+	releaseHooks []func()
+)
+
+// OnRelease registers a function that empties a package-level memo (memos are pure: emptying one while another
+// program is being analysed only costs a recomputation).
+func OnRelease(f func()) {
+	releaseMu.Lock()
+	releaseHooks = append(releaseHooks, f)
+	releaseMu.Unlock()
+}
+
+func clearMap(m *sync.Map) {
+	m.Range(func(k, _ any) bool { m.Delete(k); return true })
+}
+
+// ClearMap empties a sync.Map used as a memo.
+func ClearMap(m *sync.Map) { clearMap(m) }
+
+func init() {
+	OnRelease(func() { clearMap(&loopCache); clearMap(&rangeLoopCache); clearMap(&wrapsParamMemo) })
 }
 
 func IsCallTo(com *ssa.CallCommon, fn *ssa.Function) bool {
